@@ -29,7 +29,7 @@ ASSUMPTIONS = ['the independent walk (lokiverif.irtree.walk over dataclass field
                '(lokiverif.unitobs.known_defects) no longer reproduces it on the tree under test; until then it lives in replays/C18 '
                'and the avoided draws are counted under excluded_by_construction']
 SHARDS = {'quick': 16, 'thorough': 16}
-BUDGET = {'quick': 50, 'thorough': 1200}
+BUDGET = {'quick': 75, 'thorough': 1200}
 
 _FLAGS = None
 
@@ -334,6 +334,9 @@ def check_case(case, ctx):
     nscopes = len(inv0.scopes)
     resolved = case['mode'] != 'plain' and any(f.startswith(('call:imported', 'import:')) for f in case.get('feats', []))
     ctx.case(case, nscopes >= 2 or resolved, classes + [f'owned-scopes:{min(nscopes, 8)}'] + (['enriched-links'] if resolved else []))
+    if len(ctx.samples) < ctx.MAX_SAMPLES and nscopes >= 2 and resolved:
+        ctx.sample({'target': case['target'], 'mode': case['mode'], 'owned_scopes': inv0.scope_labels[:10],
+                    'source_of_target_file': U.render_project(case)[case['target'][1]][:1500]})
     try:
         blob = pickle.dumps(u)
         u2 = pickle.loads(blob)
@@ -358,9 +361,6 @@ def check_case(case, ctx):
         ctx.fail(f'C18:rt2:raises:{exc_bucket(e)}', case, f'second pickle round trip raised {e!r}')
         return
     roundtrip_checks(ctx, case, u2, u3, 'rt2')
-    if len(ctx.samples) < ctx.MAX_SAMPLES and nscopes >= 3 and resolved:
-        ctx.sample({'target': case['target'], 'mode': case['mode'], 'owned_scopes': inv0.scope_labels[:10],
-                    'pickle_bytes': len(blob), 'source_of_target_file': U.render_project(case)[case['target'][1]][:1500]})
 
 
 def run_shard(ctx):
